@@ -170,9 +170,9 @@ func runWordC01(c *explore.Ctx, base *explore.Base, sp wordSpace, word []explore
 		if msg := s.Check(); msg != "" {
 			w := word[:i+1]
 			return &explore.Violation{
-				Key:  fmt.Sprintf("base=%s cfg=%s seed=%d word=%s", sp.Base, sp.Cfg, sp.Seed, explore.WordString(w)),
-				What: fmt.Sprintf("after [%s] from base %s/%s: %s", explore.WordString(w), sp.Base, sp.Cfg, msg),
-				Size: len(w),
+				Key:    fmt.Sprintf("base=%s cfg=%s seed=%d word=%s", sp.Base, sp.Cfg, sp.Seed, explore.WordString(w)),
+				What:   fmt.Sprintf("after [%s] from base %s/%s: %s", explore.WordString(w), sp.Base, sp.Cfg, msg),
+				Size:   len(w),
 				Replay: map[string]interface{}{"kind": "word", "check": "C01", "base": sp.Base, "cfg": sp.Cfg, "seed": sp.Seed, "word": opsJSON(w), "observed": msg},
 			}
 		}
